@@ -1,7 +1,10 @@
 mod ctx;
 mod srp;
 mod c01;
+mod c02;
+mod c03;
 mod c04;
+mod c05;
 mod c06;
 mod c07;
 mod c08;
@@ -38,7 +41,10 @@ fn main() {
                         failures: Vec::new(), oracle_runs: 0, samples: Vec::new(), notes: Vec::new(), exhaustive: Vec::new() };
     match prop.as_str() {
         "C01" => { c01::run(&mut ctx); ctx.finish("corr.C01", "run_C01"); }
+        "C02" => { c02::run(&mut ctx); ctx.finish("corr.C02", "run_C02"); }
+        "C03" => { c03::run(&mut ctx); ctx.finish("corr.C03", "run_C03"); }
         "C04" => { c04::run(&mut ctx); ctx.finish("corr.C04", "run_C04"); }
+        "C05" => { c05::run(&mut ctx); ctx.finish("corr.C05", "run_C05"); }
         "C06" => { c06::run(&mut ctx); ctx.finish("corr.C06", "run_C06"); }
         "C07" => { c07::run(&mut ctx); ctx.finish("corr.C07", "run_C07"); }
         "C08" => { c08::run(&mut ctx); ctx.finish("corr.C08", "run_C08"); }
